@@ -126,7 +126,8 @@ class PromiseType final : public PromiseTypeBase<V, E, Lazy, Shared> {
   }
 
   YACLIB_INLINE void Impl(InlineCore& caller) noexcept {
-    this->_executor = std::move(DownCast<BaseCore>(caller)._executor);
+    // caller can be shared between many observers, so its executor is copied, not taken (move assignment is a swap)
+    this->_executor = DownCast<BaseCore>(caller)._executor;
     YACLIB_ASSERT(this->_executor != nullptr);
   }
   [[nodiscard]] InlineCore* Here(InlineCore& caller) noexcept final {
